@@ -422,3 +422,48 @@ pub fn replay(v: &serde_json::Value) -> Leg {
     }
     leg
 }
+
+/// Hostile inputs for the end-to-end rig: JSON lines {"hex":..., "how":...}.
+pub fn dump_corpus(handler: &str, seed: u64, n: u64, out: &str) {
+    let h = H::from(handler).unwrap_or(H::Dhcp);
+    let seeds = seeds_for(h);
+    let mut r = Rng::derive(seed, 0xD0, n);
+    let mut lines = Vec::new();
+    // a spread of systematic mutants of every seed
+    let total: usize = seeds.iter().map(|s| mutate::systematic_count(s.len())).sum();
+    let want_sys = (n / 2) as usize;
+    let stride = (total / want_sys.max(1)).max(1);
+    let mut g = r.usize(stride);
+    for (si, s) in seeds.iter().enumerate() {
+        let cnt = mutate::systematic_count(s.len());
+        while g < cnt {
+            let (b, d) = mutate::systematic(s, g);
+            lines.push(json!({"hex": hex(&b), "how": format!("systematic seed{} {}", si, d)}).to_string());
+            g += stride;
+        }
+        g -= cnt.min(g);
+    }
+    while (lines.len() as u64) < n {
+        let (b, how) = match r.below(10) {
+            0..=4 => {
+                let (b, d) = hostile_for(h, &mut r);
+                (b, format!("hostile {}", d))
+            }
+            5..=7 => {
+                let s = r.pick(&seeds).clone();
+                let (b, d) = mutate::havoc(&mut r, &s, &seeds, 1400);
+                (b, d)
+            }
+            8 => {
+                let s = r.pick(&seeds).clone();
+                (mutate::prefixed_random(&mut r, &s, if h == H::Dhcp { 240 } else { 12 }, 1400), "valid-prefix-random".to_string())
+            }
+            _ => {
+                let l = r.len_biased(1400);
+                (r.bytes(l), "random".to_string())
+            }
+        };
+        lines.push(json!({"hex": hex(&b), "how": how}).to_string());
+    }
+    std::fs::write(out, lines.join("\n") + "\n").expect("write corpus");
+}
